@@ -161,6 +161,50 @@ def sign_sweep_jobs(inputs, api, rng, per_n=None):
     return out
 
 
+def special_programs(ck, seed, quick=True):
+    """Input programs with structure that random behaviours of the unrestricted machine rarely have (all of them behaviours of the tableau machine, generated
+    by TLC -simulate): (a) circuits whose only two-qubit gates are swaps - no entangling gate at all - for every connectivity; (b) ALREADY TAILORED circuits:
+    behaviours of the machine whose gate guard is the coupling graph of one connectivity (swap included), short, to be compressed for that connectivity."""
+    out = []
+    for n in range(3, 7):
+        for b in models.simulate_programs(ck, n, 4 if quick else 40, 5, seed=seed + 7 * n, names1=("h", "s", "x"), names2=("swap",)):
+            if any(g[2] >= 0 for g in b["hist"]):
+                out.append({"n": n, "codes": [], "program": b["hist"], "graph": None, "src": f"swap-only behaviour n={n}"})
+    for (n, conn) in impl.SUPPORTED:
+        if conn == "all" or n < 3:
+            continue
+        for depth in ((5, 9) if quick else (4, 6, 9, 13)):
+            for b in models.simulate_programs(ck, n, 5 if quick else 60, depth, seed=seed + 101 * n + depth + len(conn), names1=("h", "s"), names2=("cx", "cz", "swap"), conn=conn):
+                if any(g[0] == "swap" for g in b["hist"]):
+                    out.append({"n": n, "codes": [], "program": b["hist"], "graph": None, "only_conn": conn, "src": f"behaviour of the {n}-{conn} machine (already tailored), len {len(b['hist'])}"})
+    return out
+
+
+def table_plus_swap_programs(L, rng, per_cfg=12):
+    """(c) NEARLY OPTIMAL tailored circuits with a swap: the shipped circuit of a low-cost class (at most 2 two-qubit gates) followed by one swap on a
+    coupled pair - few gates, all on coupled pairs, but a swap costs three.  The shipped circuits are only used to BUILD inputs (the specification
+    computes the state of the program itself)."""
+    out = []
+    for (n, conn) in impl.SUPPORTED:
+        if conn == "all" or n < 3:
+            continue
+        edges = [[int(a), int(b)] for a, b in L.connectivity_support.get_connectivity_graph(n, conn).get_edges()]
+        cands = []
+        for i in range(impl.NUM_CLASSES[n]):
+            try:
+                info = L.circuit_lookup.stabilizer_circuit_lookup(n, conn, i)
+                if 1 <= int(info.cost) <= 2 and "swap" not in info.circuit_string:
+                    cands.append(impl.gates_of(info.parse_circuit()))
+            except Exception:
+                continue
+        for _ in range(min(per_cfg, len(cands) * len(edges))):
+            g = cands[rng.randrange(len(cands))]
+            a, b = edges[rng.randrange(len(edges))]
+            out.append({"n": n, "codes": [], "program": [list(x) for x in g] + [["swap", a, b]], "graph": None, "only_conn": conn,
+                        "src": f"shipped low-cost circuit of {n}-{conn} followed by swap({a},{b})"})
+    return out
+
+
 def conn_sweep_jobs(inputs, apis, rng, per_n=None):
     """a few inputs per register size; for each ONE Stabilizer object and ONE circuit object go through every connectivity of that size (in a seeded order,
     the first one once more at the end) and through the given APIs, in ONE worker process: results must not depend on what the same object was asked before"""
